@@ -195,8 +195,10 @@ def worker_main(args):
                     "decoded": jsonable(final.decoded),
                     "event_log_digest": final.digest,
                 }
-                os.makedirs(os.path.join(pin.VERIF_DIR, "replays"), exist_ok=True)
-                path = os.path.join(pin.VERIF_DIR, "replays", f"{pid}-{seed}.json")
+                # VERIF_OUT_DIR: self-tests against scratch copies keep their files out of /verif
+                rdir = os.path.join(os.environ.get("VERIF_OUT_DIR") or pin.VERIF_DIR, "replays")
+                os.makedirs(rdir, exist_ok=True)
+                path = os.path.join(rdir, f"{pid}-{seed}.json")
                 with open(path, "w") as f:
                     json.dump(rf, f, indent=1)
                 res["violations"].append({"seed": seed, "replay": path,
